@@ -3,7 +3,9 @@ import Rivaas.Spec.Contain
 /-
 Driver for C10. Case lines (see harness/c10/main.go):
 
-  <id> R <check> <compiled> <wrap> <global> <chain> => <result> <nf> <result>*
+  <id> R <check> <compiled> <wire> <wrap> <global> <chain> => <result> <nf> <result>*
+      wire = the request went through a real net/http server: an escaped panic shows as a dropped
+             connection (escaped value 9, trace only), so only `escaped.isSome` is compared there
       compiled = router.WithRouteCompilation (which serve path runs the chain): read and ignored by the model
       chain  = n (hid acts)…       acts = n act…   act = N | A | C | W | R | P v | K acts
       result = <trace: n ev…> <status> <body: n chunk…> <escaped: 0 | 1 v>
@@ -104,13 +106,13 @@ def silent (wrap : Bool) : List Prog :=
   [{ recovers := true, acts := [.next] }] ++ (if wrap then [{ acts := [.next] }] else [])
 
 def stepR (id : String) (inp obs : List String) : String :=
-  let pIn : P (Bool × Bool × Nat × List (Nat × List Act)) := do
-    let check ← bool; let _compiled ← bool; let wrap ← bool; let g ← nat
+  let pIn : P (Bool × Bool × Bool × Nat × List (Nat × List Act)) := do
+    let check ← bool; let _compiled ← bool; let wire ← bool; let wrap ← bool; let g ← nat
     let ch ← list (do let h ← nat; let a ← pActs 8; pure (h, a))
-    pure (check, wrap, g, ch)
+    pure (check, wire, wrap, g, ch)
   let pOut : P (Res × List Res) := do let r ← pRes; let fs ← list pRes; pure (r, fs)
   match runP pIn inp, runP pOut obs with
-  | some (check, wrap, g, ch), some (r, fs) =>
+  | some (check, wire, wrap, g, ch), some (r, fs) =>
     let cfg : Cfg := { check := check }
     let sil := silent wrap
     let ids := idsOf sil.length (ch.map (·.1))
@@ -122,7 +124,11 @@ def stepR (id : String) (inp obs : List String) : String :=
     match modelSeen cfg ids progs, modelSeen cfg ids progs1, modelSeen cfg ids2 progs2, fs with
     | some m, some m1, some m2, [f1, f2] =>
       let o := seenOf r
-      let mi := m == o && m1 == seenOf f1 && m2 == seenOf f2
+      -- over the wire an escaped panic is a dropped connection: no status, no body, no value
+      let wireEq (a b : Seen) : Bool :=
+        if a.escaped.isSome || b.escaped.isSome then a.escaped.isSome == b.escaped.isSome && a.trace == b.trace else a == b
+      let eq := if wire then wireEq else fun a b => a == b
+      let mi := eq m o && eq m1 (seenOf f1) && eq m2 (seenOf f2)
       let s := containOK check progs o [(progs1, rend ids, seenOf f1), (progs2, rend ids2, seenOf f2)]
       verdict id mi s "-" (showRes m ++ " 2 " ++ showRes m1 ++ " " ++ showRes m2)
     | _, _, _, _ => s!"{id} bad-case model could not run / wrong number of follow-ups"
